@@ -268,6 +268,12 @@ class Stream:
         elif self.state == 'CONTROLLER_WAIT':
             pass  # waiting for us to ATTACHSTREAM
 
+        elif self.state in ('XOFF_SENT', 'XOFF_RECV', 'XON_SENT', 'XON_RECV'):
+            # flow-control notices (Tor 0.4.7+, congestion control);
+            # the stream stays as it is, and the line still names its
+            # circuit (see below)
+            pass
+
         else:
             raise RuntimeError("Unknown state: %s" % self.state)
 
